@@ -254,8 +254,31 @@ class Translator:
         fn = init[3]
         self.check_args(fn)
         fs = []
-        for s in fn.body:
+        for k, s in enumerate(fn.body):
             if isinstance(s, ast.Expr) and isinstance(s.value, ast.Constant) and isinstance(s.value.value, str):
+                continue
+            c = s.value if isinstance(s, ast.Expr) else None
+            if not fs and isinstance(c, ast.Call) and isinstance(c.func, ast.Attribute) and c.func.attr == '__init__' \
+                    and isinstance(c.func.value, ast.Call) and isinstance(c.func.value.func, ast.Name) and c.func.value.func.id == 'super' \
+                    and not c.func.value.args and not c.keywords and not any(isinstance(a, ast.Starred) for a in c.args):
+                # super().__init__(e...): the fields of the next class of the MRO that has an __init__, each of which must be
+                # one of its parameters (or a constant); they come first
+                mro = self.mro(mod, cls)
+                rest = mro[[x[1] for x in mro].index(init[2]) + 1:]
+                base = [x for x in rest if any(isinstance(n, ast.FunctionDef) and n.name == '__init__' for n in x[1].body)]
+                if base:
+                    bparams, bfs, _ = self.fields(*base[0])
+                    if len(bparams) != len(c.args):
+                        raise Unsupported('%s.__init__: arity of super().__init__' % cls.name)
+                    for f, e in bfs:
+                        if isinstance(e, ast.Name) and e.id in bparams:
+                            fs.append((f, c.args[bparams.index(e.id)]))
+                        elif isinstance(e, ast.Constant):
+                            fs.append((f, e))
+                        else:
+                            raise Unsupported('%s.__init__: field %s of the base class is not a plain parameter' % (cls.name, f))
+                elif c.args:
+                    raise Unsupported('%s.__init__: super().__init__ with arguments but no base __init__' % cls.name)
                 continue
             ok = (isinstance(s, ast.Assign) and len(s.targets) == 1 and isinstance(s.targets[0], ast.Attribute)
                   and isinstance(s.targets[0].value, ast.Name) and s.targets[0].value.id == fn.args.args[0].arg)
@@ -330,6 +353,8 @@ class Translator:
                             if kind == 'meth' and len(m[3].args.args) != call_arity + 1:
                                 raise Unsupported('arity')
                             body = '%s o%s' % (self.function(m[1], m[3], m[2]), args)
+                            if self.summary.get(body.split()[0], {}).get('mutator'):
+                                raise Unsupported('a mutator is never called from translated code')
                         elif m is None and kind == 'attr' and attr in fnames:
                             body = 'nth_opt fs %d' % fnames.index(attr)
                         elif m is None and attr not in fnames:
@@ -371,6 +396,27 @@ class Translator:
                 raise Unsupported('%s defined more than once' % qual)
             params = [a.arg for a in fn.args.args]
             self.summary[name] = {'outs': [], 'fresh': False, 'n': len(params)}  # provisional: seen by recursive references
+            stmts = [x for x in fn.body if not (isinstance(x, ast.Expr) and isinstance(x.value, ast.Constant) and isinstance(x.value.value, str))]
+            if cls is not None and params and stmts and not fn.decorator_list and all(
+                    isinstance(x, ast.Assign) and len(x.targets) == 1 and isinstance(x.targets[0], ast.Attribute)
+                    and isinstance(x.targets[0].value, ast.Name) and x.targets[0].value.id == params[0] for x in stmts):
+                # a setter: only `self.f = e` statements.  Translated as the function (self, args) |-> the UPDATED self
+                # (exact for objects of exactly this class; never called from translated code)
+                fnames = [f for f, _ in self.fields(mod, cls)[1]]
+                env = {p: Var('a%d' % i) for i, p in enumerate(params)}
+                f = Fn(self, mod, env)
+                f.locals = set(params)
+                new = {}
+                for x in stmts:
+                    if x.targets[0].attr not in fnames or any(isinstance(t, ast.Attribute) and isinstance(t.value, ast.Name) and t.value.id == params[0]
+                                                              for t in ast.walk(x.value)):
+                        raise Unsupported('%s: setter of an unknown field, or reading self' % qual)
+                    new[x.targets[0].attr] = f.expr(x.value)
+                self.summary[name] = {'outs': [], 'fresh': False, 'n': len(params), 'mutator': True}
+                return self.emit(key, name, '(* %s.%s: %s; MUTATOR: returns the updated self *)' % (cls.name, fn.name, mod.span(fn)), len(params),
+                                 '%smatch a0 with\n  | VObj c fs => if String.eqb c %s then py_obj c [%s] else VErr\n  | _ => VErr\n  end%s' % (
+                                     ''.join('py_strict a%d (' % i for i in range(len(params))), self.tag(mod, cls),
+                                     '; '.join(new.get(fld, 'nth_opt fs %d' % i) for i, fld in enumerate(fnames)), ')' * len(params)))
             outs = Fn(self, mod, {}).out_params(fn, params)
             env = {p: Var('a%d' % i, owned=(i in outs)) for i, p in enumerate(params)}
             f = Fn(self, mod, env, outs=[params[i] for i in outs])
@@ -991,7 +1037,7 @@ def gen(target, src=None, out_dir=None):
 
 def gen_for(prop, src=None, out_dir=None):
     """regenerate the translated definitions of every target tied to property `prop` (fail-closed: raises)"""
-    return [gen(t, src, out_dir)[0] for t in sorted(TARGETS) if TARGETS[t]['prop'] == prop]
+    return [gen(t, src, out_dir)[0] for t in sorted(TARGETS) if prop in TARGETS[t]['prop'].split()]
 
 
 def gen_all(src=None, out_dir=None):
